@@ -7,11 +7,11 @@ def core_schema(mutation=True, subscription=True):
         iface("Node", [("id", "ID!"), ("label", "String")]),
         iface("Named", [("name", "String!")]),
         obj("User", [("id", "ID!"), ("label", "String"), ("name", "String!"), ("age", "Int"), ("extId", "ID"), ("aliases", "[ID!]"), ("friend", "Node"),
-                     ("friends", "[User!]!"), ("tags", "[String]"), ("roles", "[Role!]"), ("dates", "[Date]!"), ("pet", "Pet"), ("role", "Role"),
+                     ("friends", "[User!]!"), ("tags", "[String]"), ("roles", "[Role!]"), ("dates", "[Date]!"), ("type", "String"), ("ref", "ID"), ("pet", "Pet"), ("role", "Role"),
                      ("since", "Date"), ("score", "Float"), ("active", "Boolean!"),
                      FieldDef("legacy", "String", dep=("use label",))], ["Node", "Named"]),
         # Org refines the interface's nullable `label` to non-null (legal covariance)
-        obj("Org", [("id", "ID!"), ("label", "String!"), ("name", "String!"), ("members", "[User!]"), ("memberIds", "[ID!]!"),
+        obj("Org", [("id", "ID!"), ("label", "String!"), ("name", "String!"), ("members", "[User!]"), ("memberIds", "[ID!]!"), ("return", "Int!"),
                     ("owner", "User!"), ("kind", "Role!")], ["Node", "Named"]),
         obj("Bot", [("id", "ID!"), ("label", "String"), ("version", "Int!")], ["Node"]),
         obj("Cat", [("name", "String!"), ("lives", "Int")]),
@@ -22,12 +22,12 @@ def core_schema(mutation=True, subscription=True):
         scalar("Date"),
         # names that are not stable under UpperCamelCase (normalization = rust must not leak to the wire)
         scalar("date_time"),
-        enum("sort_order", ["ASC", "desc"]),
+        enum("sort_order", ["ASC", "desc", "type"]),
         obj("http_error", [("code", "Int!"), ("stamp", "date_time"), ("order", "sort_order")]),
         union("Outcome", ["User", "http_error"]),
         # ... and input fields whose names are Rust keywords (their Rust field is escaped, the key on the wire is not)
         inp("search_input", [("order", "sort_order"), ("term", "String"), ("at", "date_time"), ("type", "String"), ("in", "[Int!]"),
-                             ("where", "Range")]),
+                             ("where", "Range"), FieldDef("limit", "Int!", default="10"), FieldDef("modes", "[sort_order!]!", default="[ASC]")]),
         obj("Q", [("me", "User!"), ("node", "Node"), ("nodes", "[Node!]!"), ("named", "Named"), ("thing", "Thing"),
                   ("things", "[Thing]!"), ("pet", "Pet"),
                   FieldDef("user", "User", args=[("id", "ID!")]),
@@ -103,7 +103,7 @@ def items_user():
         ("...UserA", Spread("UserA")), ("...UserB", Spread("UserB")), ("...NodeF", Spread("NodeF")),
         ("on User", Inline("User", [Field("age")])), ("on Node", Inline("Node", [Field("label")])),
         ("...UserRec", Spread("UserRec")), ("extId", Field("extId")), ("...UserX", Spread("UserX")), ("aliases", Field("aliases")),
-        ("roles", Field("roles")), ("dates", Field("dates")),
+        ("roles", Field("roles")), ("dates", Field("dates")), ("type", Field("type")), ("ref", Field("ref")),
     ]
 
 
@@ -116,6 +116,7 @@ def items_node():
         ("...OrgF", Spread("OrgF")), ("...NodeRec", Spread("NodeRec")), ("...UserT", Spread("UserT")),
         ("on User{extId}", Inline("User", [Field("extId")])), ("...UserX", Spread("UserX")), ("on Org{label}", Inline("Org", [Field("label")])),
         ("on Org{memberIds}", Inline("Org", [Field("memberIds")])), ("...CardN", Spread("CardN")), ("...ChainN", Spread("ChainN")),
+        ("on Org{return}", Inline("Org", [Field("return"), Field("kind")])),
     ]
 
 
